@@ -71,6 +71,57 @@ theorem inj_of_nodup_map {α β : Type} (f : α → β) (l : List α) (h : (l.ma
     · exact absurd e (h.1 a ha)
     · exact ih h.2 ha hb
 
+/-- sum of `w` over the entries whose id lies in `S`. -/
+def sumWhere {α β : Type} [DecidableEq β] (f : α → β) (w : α → Nat) (S : List β) (l : List α) : Nat :=
+  ((l.filter (fun a => decide (f a ∈ S))).map w).sum
+
+theorem sumWhere_not_mem {α β : Type} [DecidableEq β] (f : α → β) (w : α → Nat) (S : List β) (i : β)
+    (l : List α) (h : ∀ a ∈ l, f a ≠ i) : sumWhere f w (i :: S) l = sumWhere f w S l := by
+  unfold sumWhere
+  congr 2
+  apply List.filter_congr
+  intro a ha
+  have := h a ha
+  simp [this]
+
+/-- adding the id of one entry `v` (ids pairwise distinct, id not yet in `S`) adds exactly `w v`. -/
+theorem sumWhere_cons {α β : Type} [DecidableEq β] (f : α → β) (w : α → Nat) (S : List β) (l : List α)
+    (hd : (l.map f).Nodup) (v : α) (hv : v ∈ l) (hS : f v ∉ S) :
+    sumWhere f w (f v :: S) l = w v + sumWhere f w S l := by
+  induction l with
+  | nil => cases hv
+  | cons x xs ih =>
+    simp only [List.map_cons, List.nodup_cons, List.mem_map, not_exists, not_and] at hd
+    by_cases hx : f x = f v
+    · -- x is the entry with v's id; nobody in xs has it
+      have hxs : ∀ a ∈ xs, f a ≠ f v := fun a ha e => hd.1 a ha (e.trans hx.symm)
+      have hvx : v = x := by
+        rcases List.mem_cons.1 hv with h | h
+        · exact h
+        · exact absurd rfl (hxs v h)
+      subst hvx
+      have h1 := sumWhere_not_mem f w S (f v) xs hxs
+      unfold sumWhere at h1 ⊢
+      simp only [List.filter_cons, List.mem_cons, true_or, decide_true, if_true, hS, decide_false,
+        Bool.false_eq_true, if_false, List.map_cons, List.sum_cons]
+      simp only [List.mem_cons] at h1
+      rw [h1]
+    · have hv' : v ∈ xs := by
+        rcases List.mem_cons.1 hv with h | h
+        · exact absurd (by rw [h]) hx
+        · exact h
+      have ih' := ih hd.2 hv'
+      unfold sumWhere at ih' ⊢
+      by_cases hxS : f x ∈ S
+      · simp only [List.filter_cons, List.mem_cons, hx, hxS, or_true, decide_true, if_true,
+          List.map_cons, List.sum_cons]
+        simp only [List.mem_cons] at ih'
+        rw [ih']; omega
+      · simp only [List.filter_cons, List.mem_cons, hx, hxS, or_self, decide_false,
+          Bool.false_eq_true, if_false]
+        simp only [List.mem_cons] at ih'
+        exact ih'
+
 /-! ## second loop -/
 
 theorem fold_none (verify : Bytes → Bytes → Bytes → Bool) (map : NodeMap) (msg : Bytes)
